@@ -54,7 +54,7 @@ def campaign(c):
             pos = nimp + r.below(len(body) - nimp + 1); body.insert(pos, js); total += d
         base_src = ('\n'.join(body) + '\n' + tail).encode()
         impl, model = progdiff.run_both(c, base_src)
-        progdiff.compare(c, base_src, impl, model, 'time')
+        progdiff.compare(c, base_src, impl, model, 'time', project=lambda f: len(f).to_bytes(4, 'big'))   # timestamps and sizes only
         rep = dict(src=base_src.decode()[:3000])
         key = None
         if impl['outcome'][0] == 'success':
@@ -80,7 +80,7 @@ def campaign(c):
                 twin = body[:pos] + [js] + body[pos:]
                 tsrc = ('\n'.join(twin) + '\n' + tail).encode()
                 ti, tm = progdiff.run_both(c, tsrc)
-                progdiff.compare(c, tsrc, ti, tm, 'time-twin')
+                progdiff.compare(c, tsrc, ti, tm, 'time-twin', project=lambda f: len(f).to_bytes(4, 'big'))
                 if ti['outcome'][0] == 'success':
                     T2 = times_of(c, ti['file'], dict(src=tsrc.decode()[:3000]))
                     before = bounds[pos] if pos < len(bounds) else len(T)
